@@ -142,21 +142,27 @@ def sameContract (f n : Rev) : Bool :=
   n.revNo == 1 && n.wStart == f.wStart && n.wEnd == f.wEnd && n.unlockHash == f.unlockHash && n.filesize == f.filesize
     && n.root == f.root && n.valid == f.valid && n.missed == f.missed
 
+/-- package directory of a source path (`rhp/v3/payments.go` ↦ `rhp/v3`): the tie is package + function,
+so that moving a function to another file of its package is not a difference -/
+def pkgOf (file : String) : String := "/".intercalate ((file.splitOn "/").dropLast)
+
 /-- `signsites list=[file:fn:n,…]`: the functions of rhp/v2, rhp/v3 that call `SignHash`, read from the
-source tree, against the model's table `signingSites` -/
+source tree, against the model's table `signingSites` (compared per package and function) -/
 def signSitesStep (d : DState) (l : Line) : DState × List Verdict :=
   match getStrList l.obs "list" with
   | none => (d, [.badline "signsites list"])
   | some items =>
     let parsed := items.map fun it => match it.splitOn ":" with
-      | [file, fn, n] => (file, fn, n.toNat?.getD 0)
+      | [file, fn, n] => (pkgOf file, fn, n.toNat?.getD 0)
       | _ => (it, "", 0)
-    let extra : List Verdict := parsed.filterMap fun (file, fn, n) =>
-      if siteCount file fn == n then none
-      else some (.mismatch s!"signsites/{file}:{fn}" (toString (siteCount file fn)) (toString n))
+    let modelCount (pkg fn : String) : Nat := (signingSites.filter fun i => pkgOf i.file == pkg && i.fn == fn).length
+    let implCount (pkg fn : String) : Nat := (parsed.filter fun (p, f, _) => p == pkg && f == fn).foldl (fun a x => a + x.2.2) 0
+    let extra : List Verdict := parsed.filterMap fun (pkg, fn, _) =>
+      if modelCount pkg fn == implCount pkg fn then none
+      else some (.mismatch s!"signsites/{pkg}:{fn}" (toString (modelCount pkg fn)) (toString (implCount pkg fn)))
     let missing : List Verdict := signingSites.filterMap fun i =>
-      if parsed.any (fun (file, fn, _) => file == i.file && fn == i.fn) then none
-      else some (.mismatch s!"signsites/{i.file}:{i.fn}" (toString (siteCount i.file i.fn)) "0")
+      if parsed.any (fun (pkg, fn, _) => pkg == pkgOf i.file && fn == i.fn) then none
+      else some (.mismatch s!"signsites/{pkgOf i.file}:{i.fn}" (toString (modelCount (pkgOf i.file) i.fn)) "0")
     (d, extra ++ missing)
 
 
